@@ -282,6 +282,8 @@ def impl_run(dispatch, reg, dead, ids, ops):
             elif k == "SetCombine":
                 old = rig.chans[o[1]].set_combine_stderr(o[2])
                 out += [5, o[1], 1 if old else 0]
+            elif k == "LocalClose":
+                rig.chans[o[1]].close()
             elif k == "PollExit":
                 ch = rig.chans[o[1]]
                 ready = ch.exit_status_ready()
@@ -443,8 +445,15 @@ def gen_case(rng, big=False):
             ops.append(("RecvErr", c, rng.choice(READS)))
         elif r < 0.95:
             ops.append(("SetCombine", c, combining and rng.random() < 0.7))
-        else:
+        elif r < 0.985:
             ops.append(("PollExit", c))
+        else:
+            # the application closes its end first: the channel stays registered until the peer's CLOSE, and
+            # whatever the peer still sends (exit status!) must reach it
+            ops.append(("LocalClose", c))
+            if rng.random() < 0.7:
+                ops.append(("Msg", c, ("ExitStatus", rng.choice(STATUSES))))
+                ops.append(("PollExit", c))
     dump = list(reg) + list(dead)
     return (reg, dead, dump, ops)
 
@@ -1061,7 +1070,10 @@ STATUSES = [0, 1, 3, 127, 255, 256, 4242, 2 ** 31 + 5, 0xFEFFFFFF, 0xFF000000, 0
 STALL = 12.0     # seconds without a single byte arriving anywhere before a transfer counts as stalled
 
 
-def loopback(ctx, nchan, total, label, plan=None, window=None):
+PACKET_GRID = [32768, 65536, 131072, 4096]     # receive-side maximum packet sizes (default first)
+
+
+def loopback(ctx, nchan, total, label, plan=None, window=None, cfg=None):
     """Real client/server transports; returns list of problems (dicts)."""
     import paramiko
     from _loop import LoopSocket
@@ -1103,8 +1115,15 @@ def loopback(ctx, nchan, total, label, plan=None, window=None):
     sa.link(sb)
     # small windows make senders wait for credit and receivers send window adjusts
     win = window if window is not None else rng.choice([65536, 131072, 2 ** 21])
-    tc = paramiko.Transport(sa, default_window_size=win, default_max_packet_size=32768)
-    ts = paramiko.Transport(sb, default_window_size=win, default_max_packet_size=32768)
+    cfg = dict(cfg or {})
+    cfg.setdefault("compression", True)
+    cfg.setdefault("max_packet", 32768)                 # transport default (used by the accepting side)
+    for p_ in plan:
+        # per-channel receive-side maximum packet size (open_session(max_packet_size=...)): several live channels
+        # with different parameters on one transport
+        p_.setdefault("max_packet", cfg.get("chan_max_packet") or rng.choice(PACKET_GRID))
+    tc = paramiko.Transport(sa, default_window_size=win, default_max_packet_size=cfg["max_packet"])
+    ts = paramiko.Transport(sb, default_window_size=win, default_max_packet_size=cfg["max_packet"])
     tc.set_log_channel(LOGNAME)
     ts.set_log_channel(LOGNAME)
     problems = []
@@ -1114,14 +1133,14 @@ def loopback(ctx, nchan, total, label, plan=None, window=None):
     try:
         key = paramiko.RSAKey.from_private_key_file(os.path.join(ctx.repo, "tests", "_support", "rsa.key"))
         ts.add_server_key(key)
-        tc.use_compression(True)
-        ts.use_compression(True)
+        tc.use_compression(cfg["compression"])
+        ts.use_compression(cfg["compression"])
         ts.start_server(threading.Event(), Srv())
         tc.start_client(timeout=60)
         tc.auth_none("verif")
         cch, sch = [], []
         for i, p in enumerate(plan):
-            c = tc.open_session(timeout=60)
+            c = tc.open_session(max_packet_size=p["max_packet"], timeout=60)
             s = ts.accept(60)
             if s is None:
                 raise RuntimeError("server did not accept channel %d" % i)
@@ -1342,14 +1361,15 @@ def loopback(ctx, nchan, total, label, plan=None, window=None):
     return problems, plan, comp
 
 
-def run_loopback(ctx, nchan, total, label, big=None):
+def run_loopback(ctx, nchan, total, label, big=None, cfg=None):
+    cfg = dict(cfg or {})
     for attempt in (0, 1):
         if big is not None:
             window, n_out, n_err = big
             problems, plan, comp = loopback(ctx, 1, 0, label, plan=big_plan(ctx.rng, window, n_out, n_err),
-                                            window=window)
+                                            window=window, cfg=cfg)
         else:
-            problems, plan, comp = loopback(ctx, nchan, total, label)
+            problems, plan, comp = loopback(ctx, nchan, total, label, cfg=cfg)
         timing = [p for p in problems if p["key"] in ("loopback-stalled", "loopback-error", "loopback-transport-died")]
         if timing and attempt == 0:
             ctx.notes.append("loopback %s: %s on the first attempt; retried once" % (label, timing[0]["key"]))
@@ -1357,20 +1377,21 @@ def run_loopback(ctx, nchan, total, label, big=None):
         break
     summary = [{"stdout": len(p["stdout"]), "stderr": len(p["stderr"]), "stdin": len(p["stdin"]),
                 "combine": p["combine"], "status": p["status"],
-                "single_sendall": bool(p.get("force_sendall"))} for p in plan]
+                "single_sendall": bool(p.get("force_sendall")), "max_packet": p.get("max_packet")} for p in plan]
     if big is not None:
         summary[0]["window"] = big[0]
+    config = {"compression": cfg.get("compression", True), "transport_max_packet": cfg.get("max_packet", 32768)}
     ctx.count(("loopback", label, repr(summary)), kind="loopback-%s" % label)
     for p in plan:
         ctx.count(("loopback-chan", label, p["wseed"], p["rseed"]),
                   nontrivial=len(p["stdout"]) + len(p["stderr"]) > 0, kind="loopback-channel-%s" % p["combine"])
-    if comp is not None and "zlib" not in str(comp):
+    if comp is not None and cfg.get("compression", True) and "zlib" not in str(comp):
         ctx.notes.append("loopback %s ran without compression: %r" % (label, comp))
     for pr in problems:
-        ctx.fail(pr["key"], pr["what"], case={"loopback": label, "channels": summary, "chan": pr["chan"],
-                                              "lens": pr.get("lens")},
+        ctx.fail(pr["key"], pr["what"], case={"loopback": label, "config": config, "channels": summary,
+                                              "chan": pr["chan"], "lens": pr.get("lens")},
                  expected=pr["expected"], observed=pr["observed"])
-    ctx.sample({"loopback": {"label": label, "channels": summary, "compression": comp, "problems": len(problems)}})
+    ctx.sample({"loopback": {"label": label, "config": config, "channels": summary, "compression": comp, "problems": len(problems)}})
 
 
 # ----------------------------------------------------------------------------------------------
@@ -1460,16 +1481,26 @@ def run(ctx):
 
 def loopbacks(ctx):
     t0 = time.time()
-    for k in range(2):
-        run_loopback(ctx, 3, 48 * 1024, "small%d" % k)
-    # one sendall several times larger than the window (sender must wait for credit again and again), and
-    # one large sendall under the default window (credit threshold = window/10 is far away)
-    run_loopback(ctx, 1, 0, "bigsend-64k", big=(65536, 300 * 1024 + ctx.rng.randrange(0, 100000), 40 * 1024))
-    run_loopback(ctx, 1, 0, "bigsend-2m", big=(2 ** 21, 512 * 1024 + ctx.rng.randrange(0, 100000), 96 * 1024))
+    # option grid (rotating by seed in the quick tier, everything in thorough): compression on/off, transport
+    # default and per-channel maximum packet sizes from PACKET_GRID (non-default sizes matter: with a receive-side
+    # maximum above 32 KiB one DATA message carries more than one default packet's worth of bytes)
+    rot = ctx.seed % len(PACKET_GRID)
+    run_loopback(ctx, 3, 48 * 1024, "small0")                                   # zlib, per-channel sizes random
+    run_loopback(ctx, 3, 48 * 1024, "small1",
+                 cfg={"compression": False, "max_packet": PACKET_GRID[(rot + 1) % len(PACKET_GRID)]})
+    # one sendall several times larger than the window (sender must wait for credit again and again), with
+    # compression and 64 KiB / 128 KiB packets; and one large sendall under the default window (credit threshold =
+    # window/10 is far away) with a rotating packet size
+    run_loopback(ctx, 1, 0, "bigsend-64k", big=(65536, 300 * 1024 + ctx.rng.randrange(0, 100000), 40 * 1024),
+                 cfg={"max_packet": 65536, "chan_max_packet": [65536, 131072][ctx.seed % 2]})
+    run_loopback(ctx, 1, 0, "bigsend-2m", big=(2 ** 21, 512 * 1024 + ctx.rng.randrange(0, 100000), 96 * 1024),
+                 cfg={"max_packet": PACKET_GRID[rot], "chan_max_packet": PACKET_GRID[rot]})
     if ctx.thorough:
         for k in range(8):
-            run_loopback(ctx, 8, 512 * 1024, "large%d" % k)
-            run_loopback(ctx, rng_channels(ctx), 256 * 1024, "medium%d" % k)
+            run_loopback(ctx, 8, 512 * 1024, "large%d" % k,
+                         cfg={"compression": k % 4 != 3, "max_packet": PACKET_GRID[k % len(PACKET_GRID)]})
+            run_loopback(ctx, rng_channels(ctx), 256 * 1024, "medium%d" % k,
+                         cfg={"compression": k % 4 != 1, "max_packet": PACKET_GRID[(k + 2) % len(PACKET_GRID)]})
     ctx.log("loopback done (%.1fs)" % (time.time() - t0))
 
 
@@ -1515,7 +1546,11 @@ def replay(ctx, rep):
         sendall_window_cases(ctx, 1, fixed=[(bytes.fromhex(case["s"]["hex"]), case["window"], case["max_packet"])])
     elif str(case.get("loopback", "")).startswith("bigsend"):
         ch0 = case["channels"][0]
-        run_loopback(ctx, 1, 0, case["loopback"], big=(ch0["window"], ch0["stdout"], ch0["stderr"]))
+        conf = case.get("config") or {}
+        run_loopback(ctx, 1, 0, case["loopback"], big=(ch0["window"], ch0["stdout"], ch0["stderr"]),
+                     cfg={"compression": conf.get("compression", True),
+                          "max_packet": conf.get("transport_max_packet", 32768),
+                          "chan_max_packet": ch0.get("max_packet")})
     elif "schedule" in case:
         a = bytes.fromhex(case["stderr_buffered"]["hex"])
         b = bytes.fromhex(case["stderr_arriving"]["hex"])
